@@ -118,7 +118,7 @@ CHECKS["C05"] = dict(
 )
 CHECKS["C07"] = dict(
     category="proof",
-    text="Coq model of the restore: discovery, batched rescan (any batch size, any number of batches) with the follower suspended, the tip check of a batch (refused and retried unless the node's block at its upper height is the block the follower is synced to), cursor pull-back on disconnect, hand-over at the tip; theorems: while the node connects, disconnects and RE-connects blocks and the follower processes or lags between batches, a wallet that becomes ready holds exactly the ledger of a wallet that watched the chain live and reports the chain specification; it cannot be selected before; a batch never abandons the task; the same for a store that already holds any number of READY wallets with their history and transactions shared with the restored one (the whole database ends as the live run of all wallets; the other wallets' credits, spent marks and reports are at every moment what they are without the import; closed counterexample for a rescan that skips transactions already recorded for another wallet; that start state is reached by any history of wallet creations, address issuing and chain events; every relevant transaction is recorded exactly once; two restores running concurrently with arbitrarily interleaved batches end with the live run of all wallets); refutation witnesses for the three repaired defects (dropped task, refused reorganisation after a rescan, the bounce before the tip check). Tied to the code by an original wallet and its twin restored from mnemonic / keystore in a second real instance while blocks and reorganisations arrive between and inside batches (DB gate parks worker or handler at chosen points), the bounce family (node leaves the follower's chain while a batch is parked and returns), 1010-1160 block chains, multi-wallet instances; model = implementation on every step, implementation = chain specification and = the original wallet at the end.",
+    text="Coq model of the restore: discovery, batched rescan (any batch size, any number of batches) with the follower suspended, the tip check of a batch (refused and retried unless the node's block at its upper height is the block the follower is synced to), cursor pull-back on disconnect, hand-over at the tip; theorems: while the node connects, disconnects and RE-connects blocks and the follower processes or lags between batches, a wallet that becomes ready holds exactly the ledger of a wallet that watched the chain live and reports the chain specification; it cannot be selected before; a batch never abandons the task; the same for a store that already holds any number of READY wallets with their history and transactions shared with the restored one (the whole database ends as the live run of all wallets; the other wallets' credits, spent marks and reports are at every moment what they are without the import; closed counterexample for a rescan that skips transactions already recorded for another wallet; that start state is reached by any history of wallet creations, address issuing and chain events; every relevant transaction is recorded exactly once; two restores running concurrently with arbitrarily interleaved batches end with the live run of all wallets; a restore concurrent with the removal of another wallet ends with the live run of all wallets but the removed one, whose records are gone); refutation witnesses for the three repaired defects (dropped task, refused reorganisation after a rescan, the bounce before the tip check). Tied to the code by an original wallet and its twin restored from mnemonic / keystore in a second real instance while blocks and reorganisations arrive between and inside batches (DB gate parks worker or handler at chosen points), the bounce family (node leaves the follower's chain while a batch is parked and returns), 1010-1160 block chains, multi-wallet instances; model = implementation on every step, implementation = chain specification and = the original wallet at the end.",
     design_ref="DESIGN.md section 5, C07",
     note="Trusted: Coq kernel (no axioms), ExtrOcamlBasic + driver, harness (sim/hist/gate), mass-core's script-hash index (environment, written by the sim). Pending set, key derivation and gap discovery are inputs to this model (C09, C04, C12). Two defects repaired (7082cdf, 4701beb).",
     technique="Coq proof (batched rescan = live ledger for every batch size, by induction on batches using the C01 theorems) + twin correspondence on real WalletManager instances with controlled interleavings",
